@@ -1,8 +1,148 @@
+/-
+  C13, second half — the helper steps of `labrea.functions`.
+
+  * `helper_table_matches`: the table GENERATED from the current `labrea/functions.py`
+    (LabreaModel/Generated/HelperTable.lean, rewritten by harness/translate_functions.py at the
+    start of every check run) equals the hand-written specification `helperSpec`, row by row:
+    kind of definition, parameters and defaults, option-capable parameters, and the operand
+    expression of the step.  A swapped operand, or a parameter that no longer reaches an
+    `Evaluatable.ensure`, changes the generated row and this theorem stops checking.
+  * `helper_step`: every helper step is an instance of `step_partial` — its parameters are
+    evaluated under the options given at evaluation time, bound by name, and its keys / explain
+    are the union of its parameters'.
+  * `option_param_*`: a parameter given as `Option(key[, default])` is read from those options
+    and reports `key`.
+  * `eval_input_op_param`, `eval_param_op_input`, `binop_symbolic`: the operand order of the
+    operator rows is a syntactic fact of the value computed.
+-/
 import LabreaModel.Helpers
 import LabreaModel.Generated.HelperTable
+import LabreaProps.C13
 namespace Labrea.Helpers.C13
-open Labrea.Helpers
+open Labrea.PipelineLL Labrea.Helpers
 
+/-- the generated table is the specification (61 rows) -/
 theorem helper_table_matches : Labrea.Generated.helperTable = helperSpec := by decide
+
+example : helperSpec.length = 61 := by decide
+example : (helperSpec.map (·.name)).Nodup := by decide
+
+/-- a swapped operand is a different row -/
+example : Spec.opRight "subtract" "sub" "__x" ≠ Spec.opLeft "subtract" "sub" "__x" := by decide
+/-- a parameter that is not option-capable is a different row -/
+example : Spec.opRight "add" "add" "__x" ≠ { Spec.opRight "add" "add" "__x" with capable := [] } := by decide
+
+/-- Every helper step is a `PartialApplication` step: all bindings are evaluated under the same
+    options `o` at evaluation time (one that cannot be evaluated makes the evaluation fail), the
+    documented operation `runHelper` receives them by name together with the input, and the
+    keys / explain of the step are the union of those of the bindings. -/
+theorem helper_step (cx : Ctx) (tag : Nat) (h : String) (bs : List (String × Binding)) (x : PV) (o : Opts) :
+    (helperStep cx tag h bs).transform x o =
+        (match evalKw o (bs.map fun b => (b.1, b.2.toParam)) with
+         | some ks => runHelper cx FUEL h ks x
+         | none => .error .evaluation)
+    ∧ (helperStep cx tag h bs).keys o = seqUnion (bs.map fun b => b.2.toParam.keys o)
+    ∧ (helperStep cx tag h bs).explain o = seqUnion (bs.map fun b => b.2.toParam.explain o) := by
+  have hsp := Labrea.PipelineLL.C13.step_partial tag (helperPrim cx h) []
+    (bs.map fun b => (b.1, b.2.toParam)) x o
+  unfold helperStep
+  refine ⟨?_, ?_, ?_⟩
+  · rw [hsp.1]
+    simp only [evalPos]
+    cases evalKw o (bs.map fun b => (b.1, b.2.toParam)) <;> rfl
+  · rw [hsp.2.1]; simp [List.map_map, Function.comp_def]
+  · rw [hsp.2.2]; simp [List.map_map, Function.comp_def]
+
+/-- `Option(key[, default])` with `key` present: the value is read from the options and the key is reported -/
+theorem option_param_present (key : String) (d : Option PV) (o : Opts) (v : PV)
+    (h : lookup? key o = some v) :
+    (BParam.opt key d).toParam.eval o = some v
+    ∧ (BParam.opt key d).toParam.keys o = .ok [key]
+    ∧ (BParam.opt key d).toParam.explain o = .ok [key] := by
+  simp [BParam.toParam, h]
+
+/-- `Option(key, default)` with `key` absent: the default, and no key -/
+theorem option_param_default (key : String) (dv : PV) (o : Opts) (h : lookup? key o = none) :
+    (BParam.opt key (some dv)).toParam.eval o = some dv
+    ∧ (BParam.opt key (some dv)).toParam.keys o = .ok []
+    ∧ (BParam.opt key (some dv)).toParam.explain o = .ok [] := by
+  simp [BParam.toParam, h]
+
+/-- `Option(key)` with `key` absent: evaluation fails, `keys()` raises, `explain()` names the key -/
+theorem option_param_missing (key : String) (o : Opts) (h : lookup? key o = none) :
+    (BParam.opt key none).toParam.eval o = none
+    ∧ (BParam.opt key none).toParam.keys o = .error .keyNotFound
+    ∧ (BParam.opt key none).toParam.explain o = .ok [key] := by
+  simp [BParam.toParam, h]
+
+example : ∃ (o : Opts) (v : PV), lookup? "K" o = some v := ⟨[("K", .int 1)], .int 1, rfl⟩
+example : ∃ (o : Opts), lookup? "K" o = none := ⟨[], rfl⟩
+
+/-- rows `opRight name op x` (add, subtract, multiply, divide_by, modulo, eq … is_in):
+    the value is `input op x` — the input is the LEFT operand -/
+theorem eval_input_op_param (cx : Ctx) (n : Nat) (env : Env) (op p : String) (a b : PV)
+    (ha : lookupE "%in" env = .ok a) (hb : lookupE ("p:" ++ p) env = .ok b) :
+    eval cx (n + 2) env (.binop op .input (.param p)) = pyBinop op a b := by
+  simp [eval, ha, hb, bind, Except.bind]
+
+/-- rows `opLeft name op x` (left_multiply, divide_into, contains): the value is `x op input` -/
+theorem eval_param_op_input (cx : Ctx) (n : Nat) (env : Env) (op p : String) (a b : PV)
+    (ha : lookupE "%in" env = .ok a) (hb : lookupE ("p:" ++ p) env = .ok b) :
+    eval cx (n + 2) env (.binop op (.param p) .input) = pyBinop op b a := by
+  simp [eval, ha, hb, bind, Except.bind]
+
+example : ∃ (env : Env) (a b : PV), lookupE "%in" env = .ok a ∧ lookupE ("p:" ++ "__x") env = .ok b :=
+  ⟨[("%in", .int 10), ("p:__x", .int 3)], .int 10, .int 3, rfl, by simp [lookupE]⟩
+
+/-- on a free symbolic operand an operator builds the term `op(left, right)`: the operand order
+    is visible in the result (this is what the symbolic runs of the harness compare) -/
+theorem binop_symbolic (op : String) (a b : PV)
+    (hop : op ≠ "is" ∧ op ≠ "isnot" ∧ op ≠ "in" ∧ op ≠ "notin") (h : a.isSym = true ∨ b.isSym = true) :
+    pyBinop op a b = .ok (.sym op [a, b] []) := by
+  obtain ⟨h1, h2, h3, h4⟩ := hop
+  unfold pyBinop
+  have hs : (a.isSym || b.isSym) = true := by
+    cases h with
+    | inl h => simp [h]
+    | inr h => simp [h]
+  simp [h1, h2, h3, h4, hs]
+
+example : pyBinop "sub" (.sym "X" [] []) (.sym "P" [] []) = .ok (.sym "sub" [.sym "X" [] [], .sym "P" [] []] []) :=
+  binop_symbolic "sub" _ _ (by decide) (Or.inl rfl)
+
+/-! ### the specification computes, by kernel evaluation (non-vacuity of the rows) -/
+
+section examples
+def cx0 : Ctx := specCtx []
+def X : PV := .sym "X" [] []
+def P : PV := .sym "P" [] []
+
+-- subtract(3) on 10 is 10 - 3; on symbols: sub(X, P)
+example : runHelper cx0 12 "subtract" [("__x", .int 3)] (.int 10) = .ok (.int 7) := by rfl
+example : runHelper cx0 12 "subtract" [("__x", P)] X = .ok (.sym "sub" [X, P] []) := by rfl
+-- left_multiply / divide_into reverse the operand order
+example : runHelper cx0 12 "multiply" [("__x", P)] X = .ok (.sym "mult" [X, P] []) := by rfl
+example : runHelper cx0 12 "left_multiply" [("__x", P)] X = .ok (.sym "mult" [P, X] []) := by rfl
+example : runHelper cx0 12 "divide_by" [("__x", P)] X = .ok (.sym "div" [X, P] []) := by rfl
+example : runHelper cx0 12 "divide_into" [("__x", P)] X = .ok (.sym "div" [P, X] []) := by rfl
+-- get / get_from
+example : runHelper cx0 12 "get" [("__x", P)] X = .ok (.sym "getitem" [X, P] []) := by rfl
+example : runHelper cx0 12 "get_from" [("__x", P)] X = .ok (.sym "getitem" [P, X] []) := by rfl
+example : runHelper cx0 12 "get" [("__x", .int 7), ("default", .str "d")] (.list [.int 1]) = .ok (.str "d") := by rfl
+example : runHelper cx0 12 "get" [("__x", .int 7)] (.list [.int 1]) = .error (.raised "IndexError") := by rfl
+-- has_remainder(d, r): x % d == r
+example : runHelper cx0 12 "has_remainder" [("divisor", .int 3), ("reminder", .int 2)] (.int 8) = .ok (.bool true) := by rfl
+-- wrappers, compositions, instances unfold through the table
+example : runHelper cx0 30 "is_not_in" [("container", .list [.int 1, .int 2])] (.int 3) = .ok (.bool true) := by rfl
+example : runHelper cx0 30 "intersects" [("iterable", .list [.int 1, .int 2])] (.list [.int 2, .int 5]) = .ok (.bool true) := by rfl
+example : runHelper cx0 30 "odd" [] (.int (-3)) = .ok (.bool true) := by rfl
+example : runHelper cx0 30 "append" [("item", .int 4)] (.list [.int 1]) = .ok (.list [.int 1, .int 4]) := by rfl
+-- reduce(g) folds from the left: g(g(1, 2), 3)
+example : runHelper cx0 30 "reduce" [("func", .fn "free:g" [] [])] (.list [.int 1, .int 2, .int 3]) =
+    .ok (.record "g" [.record "g" [.int 1, .int 2] [], .int 3] []) := by rfl
+-- map_keys(f) applies f to the keys only
+example : runHelper cx0 60 "map_keys" [("func", .fn "free:f" [] [])] (.dict [(.str "a", .int 1)]) =
+    .ok (.dict [(.record "f" [.str "a"] [], .int 1)]) := by rfl
+end examples
 
 end Labrea.Helpers.C13
